@@ -231,8 +231,19 @@ def run_copy(rec: Rec, iban_files, bank_files, seed, where):
         ops = [{"op": "registry", "name": "iban"}, {"op": "registry", "name": "bank"}]
         probes = []
         probe_ccs = changed + rng.sample(sorted(set(eff) - set(changed)), 3)
+        from .c17 import check_country
         for cc in probe_ccs:
+            # several overlay files may change one country in ways that do not fit together (one lengthens the structure,
+            # another replaces the structure string): such an effective entry is not internally consistent (C17's predicate)
+            # and says nothing about what should be accepted - the table comparison above still applies to it
+            sub = Rec()
+            check_country(sub, cc, eff[cc])
+            if sub.fails:
+                rec.excluded["behaviour probe skipped: overlays combine to an inconsistent entry"] += 1
+                continue
             t_new = g_eff.iban(cc, rng)
+            if not o_eff.accept_norm(t_new):
+                raise HarnessError(f"reference rejects its own construction under the effective table: {t_new}")
             probes.append(("accept_effective", cc, t_new))
             ops.append({"op": "iban_info", "text": t_new})
             if cc in bundled:
